@@ -74,7 +74,7 @@ def run_copies(ctx, out):
     quick = ctx.tier == "quick"
     sup = core.build_sup()
     d0 = ctx.work.fresh("c12copy")
-    ncase = 14 if quick else 200
+    ncase = 36 if quick else 400
     for k in range(ncase):
         d = os.path.join(d0, "c%d" % k)
         os.makedirs(d)
@@ -89,12 +89,18 @@ def run_copies(ctx, out):
         fault = None
         rules = []
         files = [(rel, n) for rel, n in trees.walk_files(tree) if n[0] == "file" and n[1] > 0]
-        if files and rng.random() < 0.35:
+        if files and rng.random() < 0.5:
             rel, n = rng.choice(files)
             victim = os.path.join(d, "dst", "src", os.fsdecode(rel))
-            fault = rng.choice(["cfr-EIO", "ftruncate-ENOSPC", "open-EACCES"])
+            fault = rng.choice(["cfr-EIO", "ftruncate-ENOSPC", "open-EACCES", "cfr-zero", "cfr-zero"])
             if fault == "cfr-EIO":
                 rules = [("fail", 5, 0, "copy_file_range", 1, victim)]
+            elif fault == "cfr-zero":
+                # the kernel copy reports end-of-data early (the source shrank): at the first call, a middle one, or in the tail block
+                nblk = max(1, -(-n[1] // min(bs, max(1, n[1]))))
+                nth = rng.choice([1, max(1, nblk // 2), nblk])
+                fault = "cfr-zero@%d/%d" % (nth, nblk)
+                rules = [("ret", 0, 0, "copy_file_range", nth, victim)]
             elif fault == "ftruncate-ENOSPC":
                 rules = [("fail", 28, 0, "ftruncate", 1, victim)]
             else:
